@@ -1224,12 +1224,6 @@ impl<'de> de::Deserializer<'de> for &mut Deserializer<'de> {
                 let expect = self.expect_type.clone();
                 let wire = self.wire_type.clone();
                 check!(self.expect_type.is_tuple(), "seq_tuple");
-                if !self.wire_type.is_tuple() {
-                    return Err(Error::subtype(format!(
-                        "{} is not a tuple type",
-                        self.wire_type
-                    )));
-                }
                 let mut access = Compound::new(
                     self,
                     Style::Struct {
@@ -1637,23 +1631,50 @@ impl<'de> de::SeqAccess<'de> for Compound<'_, 'de> {
                     TypeInner::Record(fields) => fields,
                     _ => unreachable!(),
                 };
-                if *expect_idx >= expect_fields.len() && *wire_idx >= wire_fields.len() {
-                    return Ok(None);
+                // Pair expected and wire fields by id (both lists are sorted by id), like the
+                // record path does: a wire field the expected tuple lacks is skipped, an
+                // expected field the wire lacks must be optional and reads from `null`.
+                loop {
+                    match (expect_fields.get(*expect_idx), wire_fields.get(*wire_idx)) {
+                        (None, None) => return Ok(None),
+                        (Some(e), Some(w)) if e.id.get_id() > w.id.get_id() => {
+                            self.de.wire_type = w.ty.clone();
+                            *wire_idx += 1;
+                            de::Deserializer::deserialize_ignored_any(
+                                &mut *self.de,
+                                de::IgnoredAny,
+                            )?;
+                            continue;
+                        }
+                        (Some(e), Some(w)) if e.id.get_id() == w.id.get_id() => {
+                            self.de.expect_type = e.ty.clone();
+                            self.de.wire_type = w.ty.clone();
+                            *expect_idx += 1;
+                            *wire_idx += 1;
+                        }
+                        (Some(e), _) => {
+                            let expect = self
+                                .de
+                                .table
+                                .trace_type_with_depth(&e.ty, &self.de.recursion_depth)?;
+                            if !matches!(
+                                expect.as_ref(),
+                                TypeInner::Opt(_) | TypeInner::Reserved | TypeInner::Null
+                            ) {
+                                return Err(Error::subtype(format!("{wire} is not a tuple type")));
+                            }
+                            self.de.expect_type = expect;
+                            self.de.wire_type = TypeInner::Null.into();
+                            *expect_idx += 1;
+                        }
+                        (None, Some(w)) => {
+                            self.de.expect_type = TypeInner::Reserved.into();
+                            self.de.wire_type = w.ty.clone();
+                            *wire_idx += 1;
+                        }
+                    }
+                    break;
                 }
-                self.de.expect_type = expect_fields
-                    .get(*expect_idx)
-                    .map(|f| {
-                        *expect_idx += 1;
-                        f.ty.clone()
-                    })
-                    .unwrap_or_else(|| TypeInner::Reserved.into());
-                self.de.wire_type = wire_fields
-                    .get(*wire_idx)
-                    .map(|f| {
-                        *wire_idx += 1;
-                        f.ty.clone()
-                    })
-                    .unwrap_or_else(|| TypeInner::Null.into());
                 seed.deserialize(&mut *self.de).map(Some)
             }
             _ => Err(Error::subtype("expect vector or tuple")),
